@@ -37,6 +37,13 @@ struct AllocCtl
         static bool f = false;
         return f;
     }
+    // the allocator contract: deallocate(p, n) gets the n that allocate(n) returned p for (ASan does not see a
+    // wrong n of 0), every block is released once
+    static std::map<void *, size_t> &blocks()
+    {
+        static std::map<void *, size_t> m;
+        return m;
+    }
 };
 template <class T> struct ThrowAlloc
 {
@@ -50,9 +57,25 @@ template <class T> struct ThrowAlloc
             AllocCtl::fail_next() = false;
             throw std::bad_alloc();
         }
-        return std::allocator<T>().allocate(n);
+        T *p = std::allocator<T>().allocate(n);
+        AllocCtl::blocks()[(void *)p] = n;
+        return p;
     }
-    void deallocate(T *p, size_t n) { std::allocator<T>().deallocate(p, n); }
+    void deallocate(T *p, size_t n)
+    {
+        if (!p) return; // invalidate() of an empty array
+        auto it = AllocCtl::blocks().find((void *)p);
+        if (it == AllocCtl::blocks().end())
+        {
+            L().err("deallocate of a block that is not allocated");
+            return;
+        }
+        if (it->second != n)
+            L().err("deallocate(p, " + std::to_string(n) + ") of a block of " + std::to_string(it->second) + " elements");
+        size_t real = it->second;
+        AllocCtl::blocks().erase(it);
+        std::allocator<T>().deallocate(p, real);
+    }
     bool operator==(const ThrowAlloc &) const { return true; }
     bool operator!=(const ThrowAlloc &) const { return false; }
 };
@@ -73,6 +96,7 @@ template <class T> struct UMachine : IMachine
     {
         L().reset();
         L().loose = true;
+        AllocCtl::blocks().clear();
     }
     ~UMachine() override { L().reset(); }
     bool has(int r) { return r >= 0 && r < K && regs[r].a; }
@@ -223,6 +247,11 @@ template <class T> struct UMachine : IMachine
                 if (has(q)) drop(q);
             if (ET::trk && (L().ctors != L().dtors || !L().live.empty()))
                 o.fail("constructed " + std::to_string(L().ctors) + " destroyed " + std::to_string(L().dtors));
+            if (!AllocCtl::blocks().empty())
+            {
+                o.fail(std::to_string(AllocCtl::blocks().size()) + " block(s) never deallocated");
+                AllocCtl::blocks().clear();
+            }
         }
         else { L().throw_in = -1; o.result = "bad-op"; return; }
         }
